@@ -463,3 +463,71 @@ Qed.
 
 Lemma str_end_is_backtracking s : str_end s = str_end_bt s.
 Proof. apply (str_end_bt_eq (length s)). lia. Qed.
+
+(* ---- lexing a list of pieces (tokens and fillers in any order) ---- *)
+Lemma render_piece_pos pc :
+  (match pc with PT t => wf_token t = true | PG _ => True end) -> 1 <= length (render_piece pc).
+Proof. destruct pc as [t|f]; simpl; intro H; [apply render_token_pos, H | apply render_filler_pos]. Qed.
+
+Lemma pieces_delim_start t r :
+  pok (Some t) false r = true -> is_punct t = true \/ delim_start (render_pieces r).
+Proof.
+  destruct r as [|[t'|f] r]; simpl; intro H.
+  - right. exact I.
+  - apply andb_true_iff in H. destruct H as [H _]. apply orb_true_iff in H.
+    destruct H as [H|H]; [left; exact H|]. right. destruct t'; try discriminate H; reflexivity.
+  - apply andb_true_iff in H. destruct H as [H _]. right. apply filler_delim, H.
+Qed.
+
+Lemma lex_fuel_pieces : forall ps prev seen n,
+  pok prev seen ps = true -> forallb wf_token (tokens_of ps) = true ->
+  lex_fuel (length ps + S n) (render_pieces ps) = LexOk (tokens_of ps).
+Proof.
+  induction ps as [|[t|f] r IH]; intros prev seen n Hp Hw.
+  - reflexivity.
+  - cbn [pok] in Hp. apply andb_true_iff in Hp. destruct Hp as [_ Hp].
+    cbn [tokens_of flat_map app forallb] in Hw. apply andb_true_iff in Hw. destruct Hw as [Ht Hw].
+    cbn [length plus render_pieces flat_map render_piece lex_fuel tokens_of app].
+    fold (render_pieces r). fold (tokens_of r).
+    rewrite (lex1_token t _ Ht (pieces_delim_start t r Hp)).
+    rewrite (IH (Some t) false n Hp Hw). reflexivity.
+  - cbn [pok] in Hp. apply andb_true_iff in Hp. destruct Hp as [Hf Hp].
+    cbn [length plus render_pieces flat_map render_piece lex_fuel tokens_of app].
+    fold (render_pieces r). fold (tokens_of r).
+    rewrite (lex1_filler f _ Hf). apply (IH prev true n Hp Hw).
+Qed.
+
+Lemma pieces_length_le ps :
+  forallb wf_token (tokens_of ps) = true -> length ps <= length (render_pieces ps).
+Proof.
+  induction ps as [|[t|f] r IH]; intro Hw; [simpl; lia | |].
+  - cbn [tokens_of flat_map app forallb] in Hw. apply andb_true_iff in Hw. destruct Hw as [Ht Hw].
+    cbn [render_pieces flat_map render_piece]. rewrite app_length. pose proof (render_token_pos t Ht).
+    specialize (IH Hw). unfold render_pieces in IH. simpl. lia.
+  - cbn [render_pieces flat_map render_piece]. rewrite app_length. pose proof (render_filler_pos f).
+    specialize (IH Hw). unfold render_pieces in IH. simpl. lia.
+Qed.
+
+Lemma lex_pieces ps :
+  pok None false ps = true -> forallb wf_token (tokens_of ps) = true ->
+  lex (render_pieces ps) = LexOk (tokens_of ps).
+Proof.
+  intros Hp Hw. unfold lex. pose proof (pieces_length_le ps Hw) as Hle.
+  replace (S (length (render_pieces ps)))
+    with (length ps + S (length (render_pieces ps) - length ps)) by lia.
+  apply (lex_fuel_pieces ps None false _ Hp Hw).
+Qed.
+
+(* a text whose first token is not a left parenthesis does not start with one *)
+Lemma lex_head_not_lparen s t r :
+  lex s = LexOk (t :: r) -> t <> TLParen ->
+  match s with c :: _ => byte_eqb c c_lparen = false | [] => True end.
+Proof.
+  intros H Hne. destruct s as [|c s']; [exact I|].
+  destruct (byte_eqb c c_lparen) eqn:E; [|reflexivity].
+  apply byte_eqb_spec in E. subst c. unfold lex in H.
+  remember (length (c_lparen :: s')) as n eqn:En. clear En.
+  cbn [lex_fuel] in H. change (lex1 (c_lparen :: s')) with (Tok TLParen s') in H. cbv iota in H.
+  destruct (lex_fuel n s'); simpl in H; try discriminate H.
+  injection H as <- _. contradiction.
+Qed.
